@@ -58,7 +58,9 @@ FLAVOURS = {
     'alt-ctmul': dict(cc='gcc', cflags=['-O1', '-g', '-fno-omit-frame-pointer'] + SAN + COMMON +
                       ['-DBR_NO_ARITH_SHIFT=1', '-DBR_CT_MUL31=1', '-DBR_CT_MUL15=1'], ldflags=SAN),
     # what conf/Unix.mk and the ESP8266 port ship: -Os, no instrumentation (oracles only)
-    'os': dict(cc='gcc', cflags=['-Os', '-g'] + COMMON, ldflags=[]),
+    # (unaligned little/big-endian accesses as autodetected: inner.h then uses the direct loads and stores and the
+    #  memcpy forms of br_range_dec/enc: code no sanitizer flavour compiles, because UBSan flags the casts)
+    'os': dict(cc='gcc', cflags=['-Os', '-g'] + [f for f in COMMON if 'UNALIGNED' not in f], ldflags=[]),
 }
 
 
